@@ -240,10 +240,15 @@ Definition ustep_nobody_hr (c : uctx) (ty hdr : Z) : uhr :=
         else UOk c3 es
       else UOk (uw_opentype (uw_inOpen c3 true) []) es
     else if ty =? tok_CLOSE then
-      if 0 <? u_discard c2 then UOk (uw_stack c2 (u_discard c2 - 1) (u_stack c2)) es
+      if hd_close_fatal (u_inOpen c2) (u_discard c2) then UFatal (es ++ ufatal 0)     (* CLOSE token in the index phase of an OPEN sequence *)
+      else if 0 <? u_discard c2 then UOk (uw_stack c2 (u_discard c2 - 1) (u_stack c2)) es
       else upre es (uhandle_close c2 hdr)
     else if ty =? tok_ABORT then
-      if rejected then UOk c2 es else upre es (uhandle_violation c2 false false)
+      if rejected then UOk c2 es
+      else if hd_abort_in_index then
+        upre es (match uhandle_violation c2 (u_inOpen c2) false with
+                 | UOk c' es' => UOk (uw_inOpen c' false) es' | UFatal es' => UFatal es' end)
+      else upre es (uhandle_violation c2 false false)
     else if ty =? tok_INT then (if rejected then UOk c2 es else upre es (udeliver c2 (UInt hdr)))
     else if ty =? tok_NEG then (if rejected then UOk c2 es else upre es (udeliver c2 (UInt (- hdr))))
     else if ty =? tok_VOCAB then
